@@ -1,18 +1,255 @@
-(* C02 — placeholder obligation until Match/CutProofs.v lands (self-match and cut theorems). *)
-From Coq Require Import List NArith ZArith Bool.
-From AG Require Import Base.Val Str.MetaVar Tree.Tree Match.MatchNode.
+(* C02 — code with holes matches the code it was cut from.
+   Model: Match/MatchNode.v ([pattern_match] = Pattern::match_node_with_env, fuel = [match_fuel]),
+   Match/Cut.v ([convert] = convert_node_to_pattern, [Cut]).  Proofs: Match/CutProofs.v.
+   [mvf] is the meta-variable recogniser applied to a node's text (Language::extract_meta_var);
+   every theorem holds for ALL recognisers.
+
+   Where the side conditions live.  [Cut mvf src t p singles multis] :=
+   [CutT mvf src t p singles multis] /\ all recorded names pairwise distinct.  The constructors
+   CutT_leaf / CutT_int (the nodes that are kept, i.e. NOT inside a replaced subtree or run) carry
+   [node_ok]: not MISSING, own text not a meta-variable spelling.  Nothing at all is assumed about
+   nodes inside a replaced subtree / run.  [C02_cut_hole_free] shows that with no hole the relation
+   is exactly "every node is ok and p = convert t".
+
+   What the model binds an ellipsis to.  $$$y is bound to the RAW run r :: rs (unnamed separators
+   inside the run included), and to none of the trailing unnamed tokens that follow the run: these
+   are trivial goals, counted in [skipped] and cut off by agg_ellipsis.  The trailing children must
+   be unnamed TOKENS (leaves): for unnamed children that have children of their own the statement
+   is false of the model, see [C02_cut_run_nonleaf_trailing_refuted]. *)
+From Coq Require Import List NArith Bool Arith.
+From AG Require Import Base.Val Base.Sort Str.MetaVar Tree.Tree Match.MatchNode Match.Cut Match.CutProofs.
 Import ListNotations.
 
-(* a leaf pattern token matches a leaf of the same kind and text at every strictness level *)
-Theorem C02_leaf_self : forall s src text nm k c,
-  kind c = k -> text_of src c = text ->
-  st_match_terminal s src nm text k c = MatchedBoth.
+(* (A) fuel sufficiency and self-match, any start environment, environment unchanged *)
+Theorem C02_self_match :
+  forall (mvf : str -> option metavar) (s : strictness) (src : str) (t : tree) (e : env),
+    (forall n, In n (preorder t) -> nmissing (info n) = false) ->
+    (forall n, In n (preorder t) -> mvf (text_of src n) = None) ->
+    pattern_match src {| p_node := convert mvf src t; p_root_kind := None; p_strict := s |} t e
+    = Matched e.
+Proof. exact self_match. Qed.
+Print Assumptions C02_self_match.
+
+(* (B) full statement: holes and ellipses, every strictness, exact resulting environment *)
+Theorem C02_cut_matches :
+  forall (mvf : str -> option metavar) (s : strictness) (src : str) (t : tree) (p : pnode)
+         (singles : list (str * tree)) (multis : list (str * list tree)),
+    Cut mvf src t p singles multis ->
+    exists e',
+      pattern_match src {| p_node := p; p_root_kind := None; p_strict := s |} t empty_env
+      = Matched e'
+      /\ e' = {| m_single := singles; m_multi := multis; m_trans := [] |}
+      /\ (forall x sub, In (x, sub) singles -> lookup x (m_single e') = Some sub)
+      /\ (forall y run, In (y, run) multis -> lookup y (m_multi e') = Some run).
+Proof. exact cut_matches. Qed.
+Print Assumptions C02_cut_matches.
+
+(* (B'), more general: any start environment in which the recorded names are unbound; the names
+   of single holes need not differ from the names of ellipses (they live in different maps) *)
+Theorem C02_cut_matches_env :
+  forall (mvf : str -> option metavar) (s : strictness) (src : str) (t : tree) (p : pnode)
+         (singles : list (str * tree)) (multis : list (str * list tree)) (e : env),
+    CutT mvf src t p singles multis ->
+    NoDup (map fst singles) -> (forall x, In x (map fst singles) -> lookup x (m_single e) = None) ->
+    NoDup (map fst multis) -> (forall y, In y (map fst multis) -> lookup y (m_multi e) = None) ->
+    pattern_match src {| p_node := p; p_root_kind := None; p_strict := s |} t e
+    = Matched {| m_single := m_single e ++ singles;
+                 m_multi := m_multi e ++ multis;
+                 m_trans := m_trans e |}.
+Proof. exact cut_matches_env. Qed.
+Print Assumptions C02_cut_matches_env.
+
+(* the relation degenerates correctly: no hole <-> every node ok and the pattern is [convert t] *)
+Theorem C02_cut_hole_free :
+  forall (mvf : str -> option metavar) (src : str) (t : tree) (p : pnode),
+    CutT mvf src t p [] [] <-> (all_ok mvf src t /\ p = convert mvf src t).
+Proof. exact cutT_nil_iff. Qed.
+Print Assumptions C02_cut_hole_free.
+
+(* [convert] is the specification of convert_node_to_pattern *)
+Theorem C02_convert_spec :
+  forall (mvf : str -> option metavar) (src : str) (t : tree),
+    convert mvf src t =
+    match mvf (text_of src t) with
+    | Some mv => PMeta mv
+    | None =>
+        if is_leaf t then PTerm (text_of src t) (named t) (kind t)
+        else PInt (kind t) (map (convert mvf src)
+                                (filter (fun c => negb (nmissing (info c))) (children t)))
+    end.
+Proof. exact convert_eq. Qed.
+Print Assumptions C02_convert_spec.
+
+(* ------------------------------------------------------------------------------------------ *)
+(* Non-vacuity: the document  f(a,b)  with the real recogniser extract_meta_var '$'.          *)
+Module Ex.
+Open Scope N_scope.
+Definition mk id k nm s e cs :=
+  T {| nid := id; nkind := k; nnamed := nm; ncomment := false; nmissing := false;
+       nfld := 0; ns := s; ne := e |} cs.
+Definition src : str := [102; 40; 97; 44; 98; 41].           (* f ( a , b ) *)
+Definition tf := mk 1 1 true 0 1 [].                          (* identifier f *)
+Definition tlp := mk 3 2 false 1 2 [].                        (* "(" *)
+Definition ta := mk 4 1 true 2 3 [].                          (* identifier a *)
+Definition tcm := mk 5 3 false 3 4 [].                        (* "," *)
+Definition tb := mk 6 1 true 4 5 [].                          (* identifier b *)
+Definition trp := mk 7 4 false 5 6 [].                        (* ")" *)
+Definition targs := mk 2 11 true 1 6 [tlp; ta; tcm; tb; trp]. (* arguments *)
+Definition tcall := mk 0 10 true 0 6 [tf; targs].             (* call_expression *)
+Definition mvf := extract_meta_var DOLLAR.
+Definition X : str := [88].
+Definition Y : str := [89].
+Definition pat s p := {| p_node := p; p_root_kind := None; p_strict := s |}.
+Definition all5 := [Cst; Smart; Ast; Relaxed; Signature].
+
+(* $X($$$Y)  — a hole on the callee, an ellipsis over  a , b  followed by the token ")" *)
+Definition p_holes :=
+  PInt 10 [PMeta (Capture X true);
+           PInt 11 [PTerm [40] false 2; PMeta (MultiCapture Y); PTerm [41] false 4]].
+(* f(a, $$$Y)  — the run  b )  ends the list: the ellipsis is the last goal *)
+Definition p_last :=
+  PInt 10 [PTerm [102] true 1;
+           PInt 11 [PTerm [40] false 2; PTerm [97] true 1; PTerm [44] false 3;
+                    PMeta (MultiCapture Y)]].
+End Ex.
+Import Ex.
+
+Example C02_self_match_nonvacuous :
+  (forall n, In n (preorder tcall) -> nmissing (info n) = false) /\
+  (forall n, In n (preorder tcall) -> mvf (text_of src n) = None) /\
+  convert mvf src tcall =
+    PInt 10 [PTerm [102] true 1;
+             PInt 11 [PTerm [40] false 2; PTerm [97] true 1; PTerm [44] false 3;
+                      PTerm [98] true 1; PTerm [41] false 4]]%N /\
+  map (fun s => pattern_match src (pat s (convert mvf src tcall)) tcall empty_env) all5
+  = map (fun _ => Matched empty_env) all5.
 Proof.
-  intros s src text nm k c Hk Ht. unfold st_match_terminal, kinds_matching.
-  rewrite Hk, N.eqb_refl. cbn [orb andb].
-  assert (R : forall l, Base.Sort.str_eqb l l = true).
-  { intros l. induction l as [|x l IH]; cbn; [reflexivity|]. rewrite N.eqb_refl, IH. reflexivity. }
-  assert (E : Base.Sort.str_eqb text (text_of src c) = true) by (rewrite Ht; apply R).
-  rewrite E, orb_true_r. reflexivity.
+  split; [|split; [|split]].
+  - intros n Hn. vm_compute in Hn.
+    repeat (destruct Hn as [Hn|Hn]; [subst n; reflexivity|]). destruct Hn.
+  - intros n Hn. vm_compute in Hn.
+    repeat (destruct Hn as [Hn|Hn]; [subst n; vm_compute; reflexivity|]). destruct Hn.
+  - vm_compute. reflexivity.
+  - vm_compute. reflexivity.
 Qed.
-Print Assumptions C02_leaf_self.
+Print Assumptions C02_self_match_nonvacuous.
+
+Example C02_cut_nonvacuous :
+  Cut mvf src tcall p_holes [(X, tf)] [(Y, [ta; tcm; tb])] /\
+  map (fun s => pattern_match src (pat s p_holes) tcall empty_env) all5
+  = map (fun _ => Matched {| m_single := [(X, tf)]; m_multi := [(Y, [ta; tcm; tb])];
+                             m_trans := [] |}) all5.
+Proof.
+  split; [split|].
+  - apply (CutT_int mvf src tcall _ [(X, tf)] [(Y, [ta; tcm; tb])]);
+      [discriminate|split; vm_compute; reflexivity|].
+    apply (CutL_cons mvf src tf [targs] _ _ [(X, tf)] [] [] [(Y, [ta; tcm; tb])]).
+    + apply CutT_hole. reflexivity.
+    + apply (CutL_cons mvf src targs [] _ _ [] [(Y, [ta; tcm; tb])] [] []); [|apply CutL_nil].
+      apply (CutT_int mvf src targs _ [] [(Y, [ta; tcm; tb])]);
+        [discriminate|split; vm_compute; reflexivity|].
+      apply (CutL_cons mvf src tlp [ta; tcm; tb; trp] _ _ [] [] [] [(Y, [ta; tcm; tb])]).
+      * apply (CutT_leaf mvf src tlp); [reflexivity|split; vm_compute; reflexivity].
+      * apply (CutL_run mvf src ta [tcm; tb] [trp] Y); [reflexivity|].
+        constructor; [|constructor].
+        split; [reflexivity|split; [reflexivity|split; vm_compute; reflexivity]].
+  - vm_compute. repeat constructor; intros H; vm_compute in H;
+      repeat (destruct H as [H|H]; [discriminate|]); destruct H.
+  - vm_compute. reflexivity.
+Qed.
+Print Assumptions C02_cut_nonvacuous.
+
+Example C02_cut_last_nonvacuous :
+  Cut mvf src tcall p_last [] [(Y, [tb; trp])] /\
+  map (fun s => pattern_match src (pat s p_last) tcall empty_env) all5
+  = map (fun _ => Matched {| m_single := []; m_multi := [(Y, [tb; trp])]; m_trans := [] |}) all5.
+Proof.
+  split; [split|].
+  - apply (CutT_int mvf src tcall _ [] [(Y, [tb; trp])]);
+      [discriminate|split; vm_compute; reflexivity|].
+    apply (CutL_cons mvf src tf [targs] _ _ [] [] [] [(Y, [tb; trp])]).
+    + apply (CutT_leaf mvf src tf); [reflexivity|split; vm_compute; reflexivity].
+    + apply (CutL_cons mvf src targs [] _ _ [] [(Y, [tb; trp])] [] []); [|apply CutL_nil].
+      apply (CutT_int mvf src targs _ [] [(Y, [tb; trp])]);
+        [discriminate|split; vm_compute; reflexivity|].
+      apply (CutL_cons mvf src tlp [ta; tcm; tb; trp] _ _ [] [] [] [(Y, [tb; trp])]).
+      * apply (CutT_leaf mvf src tlp); [reflexivity|split; vm_compute; reflexivity].
+      * apply (CutL_cons mvf src ta [tcm; tb; trp] _ _ [] [] [] [(Y, [tb; trp])]).
+        { apply (CutT_leaf mvf src ta); [reflexivity|split; vm_compute; reflexivity]. }
+        apply (CutL_cons mvf src tcm [tb; trp] _ _ [] [] [] [(Y, [tb; trp])]).
+        { apply (CutT_leaf mvf src tcm); [reflexivity|split; vm_compute; reflexivity]. }
+        apply (CutL_run mvf src tb [trp] [] Y); [reflexivity|constructor].
+  - vm_compute. repeat constructor. intros [].
+  - vm_compute. reflexivity.
+Qed.
+Print Assumptions C02_cut_last_nonvacuous.
+
+(* a hole at the root *)
+Example C02_cut_root_nonvacuous :
+  Cut mvf src tcall (PMeta (Capture X true)) [(X, tcall)] [] /\
+  map (fun s => pattern_match src (pat s (PMeta (Capture X true))) tcall empty_env) all5
+  = map (fun _ => Matched {| m_single := [(X, tcall)]; m_multi := []; m_trans := [] |}) all5.
+Proof.
+  split; [split|].
+  - apply CutT_hole. reflexivity.
+  - vm_compute. repeat constructor. intros [].
+  - vm_compute. reflexivity.
+Qed.
+Print Assumptions C02_cut_root_nonvacuous.
+
+(* ------------------------------------------------------------------------------------------ *)
+(* Refuted generalisations (why [Cut] is shaped the way it is).                               *)
+
+(* 1. Trailing unnamed children that are NOT tokens.  Document  a;;  =  P[ A  U1[;]  U2[;] ],
+      U1/U2 unnamed with one token child.  Cutting the run  A U1  (followed only by the unnamed
+      U2) gives  P[ $$$Y  convert U2 ].  The goal after the ellipsis is not trivial, so the
+      look-ahead loop runs and stops at U1 already: Cst does not match, Smart matches but binds
+      Y to [A] instead of [A; U1]. *)
+Module Ex2.
+Open Scope N_scope.
+Definition src2 : str := [97; 59; 59].
+Definition A := mk 1 1 true 0 1 [].
+Definition U1 := mk 2 5 false 1 2 [mk 3 6 false 1 2 []].
+Definition U2 := mk 4 5 false 2 3 [mk 5 6 false 2 3 []].
+Definition P := mk 0 20 true 0 3 [A; U1; U2].
+Definition p_bad := PInt (kind P) [PMeta (MultiCapture Y); convert mvf src2 U2].
+End Ex2.
+Import Ex2.
+
+Example C02_cut_run_nonleaf_trailing_refuted :
+  exists (src : str) (t r u : tree) (rs : list tree) (y : str),
+    all_ok mvf src t /\ children t = (r :: rs) ++ [u] /\ named r = true /\ named u = false /\
+    let p := PInt (kind t) [PMeta (MultiCapture y); convert mvf src u] in
+    pattern_match src (pat Cst p) t empty_env = Unmatched /\
+    exists e', pattern_match src (pat Smart p) t empty_env = Matched e' /\
+               lookup y (m_multi e') = Some [r] /\ rs <> [].
+Proof.
+  exists src2, P, A, U2, [U1], Y.
+  split; [|split; [reflexivity|split; [reflexivity|split; [reflexivity|]]]].
+  - intros n Hn. vm_compute in Hn.
+    repeat (destruct Hn as [Hn|Hn]; [subst n; split; vm_compute; reflexivity|]). destruct Hn.
+  - cbv zeta. split; [vm_compute; reflexivity|].
+    eexists. split; [vm_compute; reflexivity|]. split; [vm_compute; reflexivity|discriminate].
+Qed.
+Print Assumptions C02_cut_run_nonleaf_trailing_refuted.
+
+(* 2. A hole at an UNNAMED position never matches: Capture _ true only binds named candidates.
+      Here "(" of  f(a,b)  is replaced by $X. *)
+Example C02_hole_unnamed_refuted :
+  let p := PInt 10 [PTerm [102] true 1;
+                    PInt 11 [PMeta (Capture X true); PTerm [97] true 1; PTerm [44] false 3;
+                             PTerm [98] true 1; PTerm [41] false 4]]%N in
+  map (fun s => pattern_match src (pat s p) tcall empty_env) all5 = map (fun _ => Unmatched) all5.
+Proof. vm_compute. reflexivity. Qed.
+Print Assumptions C02_hole_unnamed_refuted.
+
+(* 3. A run that is NOT a suffix (a named goal follows the ellipsis).  f($$$Y, $X) cut from
+      f(a,b) with Y |-> [a], X |-> b: the look-ahead tries $X on  a  first, succeeds, and the
+      ellipsis is closed empty; the rest then fails.  No strictness matches. *)
+Example C02_run_not_suffix_refuted :
+  let p := PInt 10 [PTerm [102] true 1;
+                    PInt 11 [PTerm [40] false 2; PMeta (MultiCapture Y); PTerm [44] false 3;
+                             PMeta (Capture X true); PTerm [41] false 4]]%N in
+  map (fun s => pattern_match src (pat s p) tcall empty_env) all5 = map (fun _ => Unmatched) all5.
+Proof. vm_compute. reflexivity. Qed.
+Print Assumptions C02_run_not_suffix_refuted.
